@@ -10,7 +10,8 @@
      a. every confirmed seeded change of the property under /verif/seeded must be
         reported (a rule that went vacuous after a refactoring shows up here);
      b. a behaviour-preserving variant (every receiver, parameter and local
-        renamed) must give exactly the verdicts of the unchanged tree;
+        renamed; comparisons, if/else, keyed literals and messages reshaped)
+        must give exactly the verdicts of the unchanged tree;
      c. a seeded sample of first-order syntactic mutants of the functions the
         obligations are anchored in measures how much of that code the rules
         look at; survivors are listed, they are not failures.
@@ -111,7 +112,7 @@ def main():
     for s in out["seeded"]:
         if s["status"] != "detected":
             print(f"thorough: LIVENESS-GAP seeded change {s['seed']}: {s['status']}")
-    print(f"thorough: behaviour-preserving rename variant: {out['neutral']['status']}")
+    print(f"thorough: behaviour-preserving variant (renamed and reshaped): {out['neutral']['status']}")
     if out["neutral"]["status"] == "DIFFERS":
         print(f"thorough: SELFTEST rename variant changes verdicts of {out['neutral']['differing']}")
     if out["mutants"]:
@@ -121,7 +122,7 @@ def main():
     cov = ev["coverage"]
     cov["variants"] = out
     cov["variant_runs"] = na + (1 if out["neutral"] and out["neutral"]["status"] in ("silent", "DIFFERS") else 0) + (out["mutants"]["sampled"] if out["mutants"] else 0)
-    cov["rule"] = cov.get("rule", "") + " | thorough: the same obligations, plus static analysis of scratch variants (seeded changes must be reported, a rename-only variant must be silent, sampled syntactic mutants measure rule liveness); variants never change the verdict"
+    cov["rule"] = cov.get("rule", "") + " | thorough: the same obligations, plus static analysis of scratch variants (seeded changes must be reported, a renamed and reshaped variant must be silent, sampled syntactic mutants measure rule liveness); variants never change the verdict"
     ev["wall_s"] = time.time() - t0
     json.dump(ev, open(evfile, "w"), indent=1)
     return rc_base
